@@ -32,6 +32,7 @@ func init() {
 		Cases: func(tier string) int { return forcedCases() + vlib.TierN(tier, 600, 20000) },
 		Rule: "forced part: for each hook point of Publish (after closed check, topic lock taken, persisted), Subscribe (registered in wait group, locks taken, before replay, before registration) and the send loop, " +
 			"operation A is parked there while the opposite operation B (Subscribe resp. Publish) runs to completion or blocks behind A (decided by the quiescence detector), then A is released; grid x buffer {0,1,4} x blocking x {0,1,3} messages published before x {with/without an older subscription}, plus 1..2 messages after. " +
+			"burst part (every third non-forced case): 24 fresh topics per case; on each, 3..8 publishers released by a barrier publish as the very first operations on that topic (first use of the per-topic lock and of the topic's log), optionally racing a first Subscribe, then a late subscription must be replayed every accepted message exactly once. " +
 			"random part: persistent GoChannel, 1..2 topics, 1..4 publishers x 1..10 messages (batches 1..3), 1..5 always-acking subscriptions started at random moments, yield/delay injection at the hook points. " +
 			"Oracle at quiescence: for every subscription the multiset of received UUIDs equals the set of successfully published UUIDs of its topic, every count exactly 1. " +
 			"Non-trivial: a forced case reached its park point and both operations completed; a random case had a Subscribe call overlapping at least one Publish call in logical time. Distinct = (spec, hook-arrival fingerprint).",
@@ -46,6 +47,9 @@ func init() {
 func run(e *vlib.Env) vlib.Result {
 	if e.Idx < forcedCases() {
 		return forced(e)
+	}
+	if e.Idx%3 == 0 {
+		return burst(e)
 	}
 	return random(e)
 }
@@ -362,5 +366,119 @@ func random(e *vlib.Env) vlib.Result {
 	if o, _ := vlib.WaitClosed(cd, vlib.WD); o == vlib.Done {
 		vlib.WaitUntil(rn.ConsumersIdle, vlib.WD)
 	}
+	return res
+}
+
+// burst: the very first operations on a fresh topic happen concurrently.
+func burst(e *vlib.Env) vlib.Result {
+	r := e.R
+	cfg := gochannel.Config{OutputChannelBuffer: []int64{0, 1, 8}[r.Intn(3)], Persistent: true, BlockPublishUntilSubscriberAck: false}
+	res := vlib.Result{Class: fmt.Sprintf("burst/buf%d", cfg.OutputChannelBuffer)}
+	ps := gochannel.NewGoChannel(cfg, watermill.NopLogger{})
+	const topics = 24
+	type tstate struct {
+		topic    string
+		mu       sync.Mutex
+		accepted []string
+		early    *rec
+	}
+	var consumers sync.WaitGroup
+	subscribe := func(topic string) *rec {
+		rc := &rec{got: map[string]int{}}
+		ch, err := ps.Subscribe(context.Background(), topic)
+		if err != nil {
+			return nil
+		}
+		consumers.Add(1)
+		go func() {
+			defer consumers.Done()
+			for m := range ch {
+				rc.add(m.UUID)
+				m.Ack()
+			}
+		}()
+		return rc
+	}
+	ts := make([]*tstate, topics)
+	npubTotal := 0
+	for t := range ts {
+		st := &tstate{topic: fmt.Sprintf("%s/burst%d", e.ID(), t)}
+		ts[t] = st
+		npub := r.Range(3, 8)
+		npubTotal += npub
+		withSub := r.Chance(0.3)
+		barrier := make(chan struct{})
+		var wg sync.WaitGroup
+		for p := 0; p < npub; p++ {
+			wg.Add(1)
+			go func(p int) {
+				defer wg.Done()
+				u := fmt.Sprintf("%s/m%d", st.topic, p)
+				m := message.NewMessage(u, []byte(u))
+				<-barrier
+				if err := ps.Publish(st.topic, m); err == nil {
+					st.mu.Lock()
+					st.accepted = append(st.accepted, u)
+					st.mu.Unlock()
+				}
+			}(p)
+		}
+		if withSub {
+			wg.Add(1)
+			go func() {
+				defer wg.Done()
+				<-barrier
+				st.early = subscribe(st.topic)
+			}()
+		}
+		close(barrier)
+		done := make(chan struct{})
+		go func() { wg.Wait(); close(done) }()
+		if oc, d := vlib.WaitClosed(done, vlib.WD); oc == vlib.Stuck {
+			res.Fail("publish-stuck", "concurrent first Publish/Subscribe calls on a fresh topic never returned (quiescent)")
+			res.Witness = d
+			break
+		}
+	}
+	var lates []*rec
+	if !res.Failed() {
+		for _, st := range ts {
+			lates = append(lates, subscribe(st.topic))
+		}
+		if oc, _ := vlib.Settle(vlib.WD); oc == vlib.Inconclusive {
+			res.Inconclusive("not quiescent")
+		}
+	}
+	if res.Verdict == "" {
+		for t, st := range ts {
+			for which, rc := range map[string]*rec{"late subscription": lates[t], "subscription racing the first publishes": st.early} {
+				if rc == nil {
+					continue
+				}
+				rc.mu.Lock()
+				for _, u := range st.accepted {
+					res.Events++
+					switch c := rc.got[u]; {
+					case c == 0:
+						res.Fail("replay-lost", "%s of fresh topic %d never received %s although its Publish succeeded (%d publishers started together as the first operations on the topic; received %d of %d)", which, t, u, len(st.accepted), len(rc.got), len(st.accepted))
+					case c > 1:
+						res.Fail("replay-duplicate", "%s of fresh topic %d received %s %d times", which, t, u, c)
+					}
+				}
+				rc.mu.Unlock()
+			}
+		}
+	}
+	res.Count("fresh_topics", topics)
+	res.Count("concurrent_first_publishes", npubTotal)
+	res.NonTrivial = true
+	res.Sig = vlib.Sig("burst", cfg.OutputChannelBuffer, npubTotal, e.Idx)
+	res.Sample = map[string]any{"fresh_topics": topics, "publishers": npubTotal}
+	cd := make(chan struct{})
+	go func() { ps.Close(); close(cd) }()
+	vlib.WaitClosed(cd, vlib.WD)
+	cdone := make(chan struct{})
+	go func() { consumers.Wait(); close(cdone) }()
+	vlib.WaitClosed(cdone, vlib.WD)
 	return res
 }
